@@ -60,8 +60,10 @@ props! {
     "C07" => c07,
     "C08" => c08,
     "C09" => c09,
+    "C10" => c10,
     "C11" => c11,
     "C12" => c12,
+    "C13" => c13,
     "C16" => c16,
     "C17" => c17,
     "C18" => c18,
